@@ -102,10 +102,10 @@ func Gen(t *rapid.T, o GenOpts) Prog {
 			return Op{K: "timeout", To: mask(t, n, "tmask"), TKind: rapid.SampledFrom(tkinds).Draw(t, "tkind")}
 		case "forge":
 			fg := &Forge{By: rapid.IntRange(0, 3).Draw(t, "by"),
-				T:        rapid.SampledFrom([]string{"proposal", "proposal", "prepare", "commit", "rc", "rc"}).Draw(t, "ft"),
+				T:        rapid.SampledFrom([]string{"proposal", "proposal", "prepare", "commit", "commit", "rc", "rc", "decided"}).Draw(t, "ft"),
 				RoundRel: rapid.SampledFrom([]int{0, 0, 0, 0, 1, 1, 2, -1}).Draw(t, "frel"),
 				Value:    rapid.SampledFrom([]string{"auto", "A", "B", "C", "B", "X"}).Draw(t, "fval"),
-				Just:     rapid.SampledFrom([]string{"auto", "auto", "auto", "none", "short", "replay", "confuse", "lowest", "lowest-first"}).Draw(t, "fjust"),
+				Just:     rapid.SampledFrom([]string{"auto", "auto", "auto", "none", "short", "replay", "confuse", "lowest", "lowest-first", "sigreplay", "foreign-first", "dup", "claimed"}).Draw(t, "fjust"),
 				Prepared: rapid.SampledFrom([]string{"none", "none", "pool", "pool", "fake", "replay"}).Draw(t, "fprep"),
 				PRound:   rapid.IntRange(1, 3).Draw(t, "fpround")}
 			if rapid.IntRange(0, 9).Draw(t, "fas_on") == 0 {
@@ -325,6 +325,39 @@ func Gen(t *rapid.T, o GenOpts) Prog {
 		// the operator that decided earlier keeps its decided message to itself, so that the others run the round on their own
 		return append(ops, Op{K: "flush", Types: "C", From: all &^ bitB, To: all &^ bitB})
 	}
+	// forged-certificate script: the correct operators are split over two values (Byzantine leader equivocates); a few of
+	// them get a genuine quorum for one value, the others are fed fabricated evidence for the OTHER value: decided
+	// messages padded with non-members / repeated / merely claimed signers or carrying the aggregate signature of a
+	// certificate of another height, and single commits in the name of correct operators with signature bytes those
+	// operators produced for another height / value
+	forgedCert := func(t *rapid.T) []Op {
+		all := uint32(1<<uint(n)) - 1
+		half := uint32(rapid.IntRange(1, (1<<uint(n))-2).Draw(t, "fc_half"))
+		ops := []Op{
+			{K: "forge", Forge: &Forge{By: 0, ByLeader: true, T: "proposal", Value: "A", Just: "auto", Prepared: "none"}},
+			{K: "flush", Types: "P", Val: "A", To: half},
+			{K: "forge", Forge: &Forge{By: 0, ByLeader: true, T: "proposal", Value: "B", Just: "auto", Prepared: "none"}},
+			{K: "flush", Types: "P", Val: "B", To: all &^ half},
+		}
+		for i := 0; i < nb; i++ {
+			ops = append(ops, Op{K: "forge", Forge: &Forge{By: i, T: "prepare", Value: "A", Prepared: "none"}}, Op{K: "forge", Forge: &Forge{By: i, T: "prepare", Value: "B", Prepared: "none"}})
+		}
+		ops = append(ops, Op{K: "flush", Types: "p"})
+		for i := 0; i < nb; i++ {
+			ops = append(ops, Op{K: "forge", Forge: &Forge{By: i, T: "commit", Value: "A", Prepared: "none"}})
+		}
+		ops = append(ops, Op{K: "flush", Types: "C", Val: "A", To: half})
+		kinds := []string{"sigreplay", "sigreplay", "foreign-first", "dup", "claimed"}
+		for k := rapid.IntRange(1, 4).Draw(t, "fc_n"); k > 0; k-- {
+			j := rapid.SampledFrom(kinds).Draw(t, "fc_kind")
+			tp := "decided"
+			if j == "sigreplay" && rapid.Bool().Draw(t, "fc_single") {
+				tp = "commit"
+			}
+			ops = append(ops, Op{K: "forge", Forge: &Forge{By: rapid.IntRange(0, 3).Draw(t, "fc_by"), T: tp, Value: "B", Just: j, Prepared: "none", PRound: rapid.IntRange(0, 3).Draw(t, "fc_pr")}})
+		}
+		return append(ops, Op{K: "flush", Types: "C", Src: 1}, Op{K: "flush", Types: "C"})
+	}
 	// type-confusion script: after a round in which some operators locked / decided, the Byzantine leader of the next
 	// round first shows ONE operator a valid re-proposal (to harvest its prepare), then proposes another value to the
 	// rest, "justified" by round-changes padded with that prepare
@@ -450,7 +483,9 @@ func Gen(t *rapid.T, o GenOpts) Prog {
 		if !o.Directed && nb > 0 && rapid.IntRange(0, 3).Draw(t, "equiv") == 0 {
 			p.Ops = append(p.Ops, equiv(t)...)
 		} else if o.Directed && nb > 0 && force == "" {
-			switch rapid.IntRange(0, 7).Draw(t, "directed") {
+			switch rapid.IntRange(0, 8).Draw(t, "directed") {
+			case 8:
+				p.Ops = append(p.Ops, forgedCert(t)...)
 			case 0:
 				p.Ops = append(p.Ops, equiv(t)...)
 			case 1:
@@ -489,6 +524,8 @@ func Gen(t *rapid.T, o GenOpts) Prog {
 				p.Ops = append(p.Ops, lockSplitDecide(t)...)
 			case "typeConfusion":
 				p.Ops = append(p.Ops, typeConfusion(t)...)
+			case "forgedCert":
+				p.Ops = append(p.Ops, forgedCert(t)...)
 			case "commitFault":
 				p.Ops = append(p.Ops, commitFault(t)...)
 			case "replay":
